@@ -40,6 +40,9 @@ CLAIMED = {
  "C20": dict(tech="TLC trace validation (TraceFullSync.tla policy rules) of real snapshot replays into a pre-populated fake target, FullSync.tla as design model",
              text="Half of the snapshot keys pre-exist on the target with same-type or other-type values, with and without expiry; the three policies are run on both replay paths incl. chunked values; TLC judges replace (exactly the snapshot value and expiry), ignore (prior key untouched, nothing merged, replay succeeds) and error (replay stops, clashing keys unmodified).",
              note="Plain replay path only; the bidirectional snapshot path is exercised by C13/C14 checks.", ref="4 C20"),
+ "C17": dict(tech="TLA+ model of UpdateCheckpoint per target request with stop/restart (CkptMaint.tla) model-checked with TLC + TLC trace validation (TraceCkpt.tla) of every request prefix of the real maintenance operations",
+             text="TLC enumerates all initial layouts over 3-4 databases and every stop point of the rename / failover / combined procedure followed by the next start. On the real code every prefix of the requests issued by UpdateCheckpoint (three variants) and DelStaleCheckpoint is cut by the fake target on seeded initial layouts (several databases with checkpoints, equal offsets, stale and fresh entries, databases without checkpoint), then the next start runs; TLC judges that the resume position is not lost, not smaller and in the same database.",
+             note="Bidirectional namespace/mode migration not exercised; Go map order sampled by repetition.", ref="4 C17"),
  "C09": dict(tech="TLC on Replay.tla (TxnMode) + TLC trace validation of real transactional runs with crash enumeration",
              text="For every source MULTI/EXEC group the target must apply all of its data commands in one EXEC block that also carries a position >= the group's EXEC; no stored or returned resume position may lie inside a group, at any crash point.",
              note="Standalone target with real MULTI/EXEC semantics modelled in TLA+.", ref="4 C09"),
@@ -50,7 +53,6 @@ PENDING = {
  "C13": "check not built yet (Bisync.tla, DESIGN 4 C13)",
  "C14": "check not built yet (BisyncFrontier.tla, DESIGN 4 C14)",
  "C16": "check not built yet (Replica.tla, DESIGN 4 C16)",
- "C17": "check not built yet (CkptMaint.tla, DESIGN 4 C17)",
  "C18": "check not built yet (Bisync.tla unit builder, DESIGN 4 C18)",
  "C19": "check not built yet (ClusterReplay.tla, DESIGN 4 C19)",
 }
